@@ -79,8 +79,15 @@ def regenerate():
 # ------------------------------------------------------------------------------------------
 # Coq
 def coq_files():
-    with open(os.path.join(COQ, "_CoqProject")) as f:
-        return [l.strip() for l in f if l.strip().endswith(".v")]
+    """every .v of the development (Extract.v is compiled separately, from build/ocaml)"""
+    return sorted(os.path.basename(p) for p in glob.glob(os.path.join(COQ, "*.v")) if os.path.basename(p) != "Extract.v")
+
+
+def write_coqproject():
+    txt = "-Q . Via\n" + "\n".join(coq_files()) + "\n"
+    p = os.path.join(COQ, "_CoqProject")
+    if not os.path.exists(p) or open(p).read() != txt:
+        open(p, "w").write(txt)
 
 
 def coq_deps(vfile):
@@ -121,7 +128,11 @@ def coq_obligations(vfile):
     return names, len(re.findall(r"\bQed\.", src)) + len(re.findall(r"\bDefined\.", src))
 
 
-HYGIENE_RE = re.compile(r"\b(Admitted|admit|Axiom|Axioms|Parameter|Parameters|Conjecture|Conjectures|Abort All)\b|Unset\s+Guard|Unset\s+Positivity|Unset\s+Universe|bypass_check|Admit\s+Obligations|-type-in-type|impredicative-set|native_compute")
+# vernacular that declares an axiom, at the start of a sentence (line start or after ". ")
+HYGIENE_RE = re.compile(r"(?:^|(?<=\.\s))\s*(?:Local\s+|Global\s+|Polymorphic\s+|Monomorphic\s+|#\[[^\]]*\]\s*)*"
+                        r"(Axiom|Axioms|Parameter|Parameters|Conjecture|Conjectures)\b"
+                        r"|\b(Admitted|admit|give_up|Abort All)\b|Unset\s+Guard|Unset\s+Positivity|Unset\s+Universe|bypass_check"
+                        r"|Admit\s+Obligations|-type-in-type|impredicative-set|native_compute", re.M)
 
 
 def coq_hygiene():
@@ -147,6 +158,7 @@ def coq_hygiene():
 def coq_make(targets, timeout=1500):
     """(re)build the given .vo targets; returns (ok_by_target, log)"""
     with Lock("coq"):
+        write_coqproject()
         mk = os.path.join(COQ, "Makefile")
         cp = os.path.join(COQ, "_CoqProject")
         if (not os.path.exists(mk)) or os.path.getmtime(mk) < os.path.getmtime(cp):
